@@ -231,6 +231,46 @@ def _tuplify(x):
     return x
 
 
+LARGE = [2**20, 2**24 - 64, 2**24, 2**24 + 1, 3 * 2**23, 2**25 + 5]
+
+
+def large_cases(tier):
+    sizes = LARGE if tier == "thorough" else LARGE[:5]
+    return [{"size": n, "direction": d} for n in sizes for d in ("impl->ref", "ref->impl")]
+
+
+def check_large_frame(case, ctx):
+    """The frame length is a 32-bit count: frames of many megabytes conform and must be written and read."""
+    from flow.record import RecordDescriptor, RecordStreamReader
+
+    n, direction = case["size"], case["direction"]
+    ctx.nontriv()
+    ctx.cls("frame-bytes:%d" % n, "direction:" + direction)
+    desc = RecordDescriptor("t/large", [("bytes", "blob"), ("varint", "i")])
+    import datetime as _d
+
+    g = _d.datetime(2020, 1, 1, tzinfo=_d.timezone.utc)
+    blob = (b"0123456789abcdef" * (n // 16 + 1))[:n]
+    recs = [desc(b"small", 0, _generated=g), desc(blob, 1, _generated=g), desc(b"after", 2, _generated=g)]
+    exp = _models(recs)
+    if direction == "impl->ref":
+        data = impl(write_impl, recs)
+        if not data.ok:
+            raise Violation("large-frame/write-raised", "%d-byte field: %r" % (n, data), detail=data.type)
+        try:
+            _, got = refcodec.decode_stream(data.value)
+        except refcodec.FormatError as e:
+            raise Violation("large-frame/format", "reference decoder rejects a %d-byte frame: %s" % (n, e))
+        compare_models(exp, got, "large-frame/impl->ref")
+    else:
+        data = refcodec.encode_stream(exp)
+        res = impl(lambda: list(RecordStreamReader(io.BytesIO(data))))
+        if not res.ok:
+            raise Violation("large-frame/read-raised", "a conforming stream with a %d-byte frame is refused: %r" % (n, res),
+                            detail=res.type)
+        compare_models(exp, _models(res.value), "large-frame/ref->impl")
+
+
 def parts(tier):
     return [
         Part("impl-to-ref", check_impl_to_ref, strategy=st.fixed_dictionaries({"seq": gen.sequence_spec()}),
@@ -239,4 +279,5 @@ def parts(tier):
              strategy=C01.focused_strategy().map(lambda c: {"seq": c["seq"]}), examples=(150, 3000)),
         Part("ref-to-impl", check_ref_to_impl, strategy=ref_case(), examples=(200, 3000)),
         Part("golden", check_golden, cases=golden_cases, exhaustive=True),
+        Part("large-frames", check_large_frame, cases=large_cases, exhaustive=True),
     ]
